@@ -20,9 +20,6 @@ void h_tokenize(void)
 {
     lex_ctype_init();
     __verif_len = nondet_size(); __verif_S = nondet_size();
-#ifdef LEX_S_CONST
-    __CPROVER_assume(__verif_S >= LEX_S_CONST);
-#endif
     __CPROVER_assume(__verif_len <= LEX_MAX_LEN);          /* same bound as the precondition: keeps len+1 from wrapping */
 #ifdef VERIF_WITNESS
     in_len = nondet_size();
